@@ -10,12 +10,12 @@ package casper
 
 //verif:property C16
 //verif:bound Best: tree of exactly N checkpoints (1..4 quick, 5 thorough), every shape, statuses as below, root epoch arbitrary
-//verif:bound Step: tree of exactly N checkpoints (N = 3, 4 quick; 5 thorough), every shape (parent of node i arbitrary among 0..i-1), root epoch arbitrary below 2^32, root justified or finalized, every other node unjustified or justified; n validators (argument: 1 or 3); the vote: any validator slot, target any non-root node, source any tree node or a stored checkpoint X outside the tree; the link source->target already carries an arbitrary subset of the n validator slots
+//verif:bound Step: tree of exactly N checkpoints (N = 3 with 1 or 3 validators, 4 with 1 validator quick; 4 with 3, 5 with 1 thorough), every shape (parent of node i arbitrary among 0..i-1), root epoch arbitrary below 2^32, root justified or finalized, every other node unjustified or justified; n validators (argument: 1 or 3); the vote: any validator slot, target any non-root node, source any tree node or a stored checkpoint X outside the tree; the link source->target already carries an arbitrary subset of the n validator slots
 //verif:assume tree invariant of the real engine: only the root of the in-memory tree can be Finalized (setFinalized re-roots the tree), hashes of distinct checkpoints are distinct, ParentHash/Parent/children describe the same tree, checkpoint heights are epoch boundaries by depth
 //verif:assume the store finds every checkpoint of the state by hash (harness mock of state.Store)
 //verif:outside accountable safety as a protocol theorem (two conflicting finalized checkpoints need 1/3 slashable validators: a statement over interleavings with Byzantine validators, not a step of this code); tryRollback / Chain.tryReorganize (channels, goroutines, the block store), so "no reorganisation removes a finalized block" is only decided at the level of bestChain's choice; growing checkpoints; ApplyBlock
 //verif:obligation fn=VerifC16Step args=3,1;3,3;4,1 validate=12
-//verif:obligation fn=VerifC16Step args=4,3;5,1;5,3 tier=thorough secs=3000
+//verif:obligation fn=VerifC16Step args=4,3;5,1 tier=thorough secs=3000
 //verif:obligation fn=VerifC16Best args=1;2;3;4 validate=12
 //verif:obligation fn=VerifC16Best args=5 tier=thorough secs=3000
 
